@@ -156,4 +156,17 @@ TEXT.update({
         note="Trusted: Lean kernel + 3 standard axioms; mutex/cond/once semantics modelled; liveness only as deadlock freedom (no leadsTo theorem); tie = acceptance of this run's event logs + CFG facts.",
         technique="Lean 4 proof (six invariant groups over an LTS with unbounded calls/items, ghost clock and counters) + concurrent trace acceptance"),
 })
+TEXT.update({
+    "C08": dict(
+        text="Two Lean layers. Word layer: ChanCaster's packed 64-bit state and Add/Send's arithmetic transcribed on Nat mod 2^64; theorems for every count and every int delta: "
+             "in-range Adds leave the expected word, overflow / unbalanced removal / out-of-bounds deltas panic (also while a Send is armed), the final validation accepts exactly "
+             "armed words. Protocol layer: an LTS at the granularity of the atomic operations with unbounded senders and contract-following receivers over an unbuffered "
+             "channel; 16-clause inductive invariant (word = packed count / armed count, sums of registrations and pending absorbs, single writer, no reader inside a Send); "
+             "theorems: no panic under the contract, the CAS counts exactly the current registrations, a Send performs exactly that many sends, returns the number of genuine "
+             "deliveries, deliveries + absorbed = armed count, word 0 afterwards; no registration takes effect during a Send; a racing removal absorbs exactly d or is not counted; "
+             "Send and an absorbing Add are never stuck. The clause 'every later call panics too' is false of the code: known finding F6 (Lean witness panic_not_sticky, replayed "
+             "on the real code every run); proved instead: the next call after an in-bounds out-of-range Add panics.",
+        note="Trusted: Lean kernel + 3 standard axioms; RWMutex/atomics/rendezvous semantics modelled; ties: regenerated CFG facts and constants, sequential word-level differential, concurrent trace acceptance with exact state words.",
+        technique="Lean 4 proof (word arithmetic by omega; 16-clause invariant over an LTS with unbounded threads) + decide over regenerated CFG + sequential differential + concurrent trace acceptance"),
+})
 NOT_YET = {}
